@@ -106,6 +106,7 @@ type Case struct {
 	Flags        map[string]bool `json:"flags,omitempty"`     // oracle switches
 	ROProg       []Op            `json:"roProg,omitempty"`    // C18: program run against the read-only collection
 	Decisions    []uint32        `json:"decisions,omitempty"` // optional decision log to follow
+	QuietTail    bool            `json:"quietTail,omitempty"` // after the log: every decision 0 instead of PRNG draws (minimised schedules)
 	VerifyAtomic bool            `json:"verifyAtomic,omitempty"`
 }
 
